@@ -1641,8 +1641,17 @@ class SSHServerChannel(SSHChannel, Generic[AnyStr]):
                                       auth_data: bytes, screen: int) -> None:
         """Finish processing request to enable X11 forwarding"""
 
-        self._x11_display = await self._conn.attach_x11_listener(
+        conn = self._conn
+
+        x11_display = await conn.attach_x11_listener(
             self, auth_proto, auth_data, screen)
+
+        if not self._conn:
+            # The channel was closed while the listener was being set up
+            conn.detach_x11_listener(self)
+            return
+
+        self._x11_display = x11_display
 
         if self._x11_display:
             self.logger.debug1('  X11 forwarding enabled')
@@ -1662,7 +1671,13 @@ class SSHServerChannel(SSHChannel, Generic[AnyStr]):
     async def _finish_agent_req_request(self) -> None:
         """Finish processing request to enable agent forwarding"""
 
-        if await self._conn.create_agent_listener():
+        result = await self._conn.create_agent_listener()
+
+        if not self._conn:
+            # The channel was closed while the listener was being set up
+            return
+
+        if result:
             self.logger.debug1('  Agent forwarding enabled')
             self._report_response(True)
         else:
